@@ -16,7 +16,7 @@
 
    Three things are specified and compared by TLC:
    (A) the algorithm-shaped unifier: a stack of equations `work`, the substitution `sub`,
-       one action per step of the code: SameVar / ChaseL / ChaseR / ChaseOther (the three
+       one action per step of the code: Load / SameVar / ChaseL / ChaseOther (the two
        look-ups of `_unify_var`) / Bind / Occurs / Decompose (`_unify_args`) / Clash / Finish;
    (B) a declarative oracle by unification closure: the least equivalence on the subterms of
        the problem that contains the equations and is closed under decomposition must be
